@@ -9,3 +9,9 @@ Definition sweep_model (i : sweep_in) : N := 0%N.
 Definition sweep_ok (i : sweep_in) (o : N) : bool := N.eqb o 0.
 Definition sweep_known (i : sweep_in) : N := 0%N.
 Definition sweep_judge := judge sweep_model N.eqb sweep_ok sweep_known.
+
+(* the RMN controller's anomaly sweep (harness and judge of C06, sink C06_sweep): outcome kinds 9 (panic recovered)
+   and 10 (watchdog) violate c06_ok1, so the sweep also decides C13's no-panic / no-hang clause for
+   ComputeReportSignatures; the case terms use the constructors of C06_check *)
+Require Export Verif.Check.C06_check.
+Definition c06_judge := Verif.Check.C06_check.c06_judge.
